@@ -8,7 +8,9 @@ package c02
 
 import (
 	"bytes"
+	"encoding/json"
 	"fmt"
+	"os"
 	"io"
 	"runtime"
 	"sync"
@@ -125,6 +127,7 @@ type end struct {
 	recv      atomic.Int64
 	sent      atomic.Int64
 	firstRecv atomic.Int64
+	firstSent atomic.Int64
 	lastRecv  atomic.Int64
 
 	readDone   chan struct{}
@@ -193,6 +196,9 @@ func (e *end) writer(sizes []int, upTo int, pace int, closeAfter bool) {
 		e.sent.Store(int64(off))
 		if !first {
 			first = true
+			if n > 0 {
+				e.firstSent.Store(time.Now().UnixNano())
+			}
 			close(e.firstWrite)
 		}
 		if err != nil {
@@ -376,8 +382,9 @@ func runCase(c Case) (*failure, *obs) {
 		o.maxReadA, o.maxReadB = aS.maxRead.Load(), bS.maxRead.Load()
 		o.readsA, o.readsB = aS.reads.Load(), bS.reads.Load()
 		o.recvA, o.recvB = A.recv.Load(), B.recv.Load()
-		fa, la, fb, lb := A.firstRecv.Load(), A.lastRecv.Load(), B.firstRecv.Load(), B.lastRecv.Load()
-		if fa != 0 && fb != 0 {
+		// a direction is in flight from its sender's first Write to its receiver's last Read
+		fa, la, fb, lb := B.firstSent.Load(), A.lastRecv.Load(), A.firstSent.Load(), B.lastRecv.Load()
+		if fa != 0 && fb != 0 && la != 0 && lb != 0 {
 			lo, hi := fa, la
 			if fb > lo {
 				lo = fb
@@ -625,9 +632,30 @@ func summarize(c Case) any {
 var latMu sync.Mutex
 var latencies []time.Duration
 
+// rapid checks its shrink deadline only between blocks; minimising one block can take a hundred
+// executions, and a rate-limited case that passes needs real time. Once the shrink budget since the
+// first violation of the running property is spent, further candidates are not executed.
+var firstViolation time.Time
+
+const shrinkBudget = 20 * time.Second
+
+func property(t *testing.T, quick, thorough int, prop func(*rapid.T)) {
+	firstViolation = time.Time{}
+	vkit.Check(t, quick, thorough, prop)
+	firstViolation = time.Time{}
+}
+
 func check(t vkit.TB, c Case) {
+	if !firstViolation.IsZero() && time.Since(firstViolation) > shrinkBudget {
+		return
+	}
 	notePending(c)
+	t0 := time.Now()
 	f, o := runCase(c)
+	if d := time.Since(t0); d > 2*time.Second+2*c.expectedTransfer() && os.Getenv("C02_DEBUG") != "" {
+		b, _ := json.Marshal(c)
+		fmt.Fprintf(os.Stderr, "C02_DEBUG slow case %v failure=%v inconclusive=%v: %s\n", d, f, o.inconclusive, b)
+	}
 	if f != nil && f.timing {
 		// bounded-time expectations are re-run once before they are reported
 		vkit.Class("timing-rerun")
@@ -637,6 +665,9 @@ func check(t vkit.TB, c Case) {
 		}
 	}
 	if f != nil {
+		if firstViolation.IsZero() && !vkit.IsKnown(f.key) {
+			firstViolation = time.Now()
+		}
 		vkit.Violation(t, f.key, f.detail, c)
 		vkit.Case("known:"+f.key, false, "")
 		return
@@ -793,8 +824,8 @@ func genCase(t *rapid.T, limits []int64) Case {
 		c.LenBA = genLen(t, "lenBA", min(maxLen, budget), c.Limit)
 		c.LenAB = genLen(t, "lenAB", min(maxLen, budget-c.LenBA), c.Limit)
 	}
-	c.SeedAB = rapid.Uint64().Draw(t, "seedAB")
-	c.SeedBA = rapid.Uint64().Draw(t, "seedBA")
+	c.SeedAB = uint64(rapid.IntRange(0, 65535).Draw(t, "seedAB"))
+	c.SeedBA = uint64(rapid.IntRange(0, 65535).Draw(t, "seedBA"))
 	c.WritesAB = genWrites(t, "writesAB", c.LenAB, 4000)
 	c.WritesBA = genWrites(t, "writesBA", c.LenBA, 4000)
 	c.Pace = rapid.SampledFrom([]int{0, 0, 1, 2}).Draw(t, "pace")
@@ -844,7 +875,7 @@ func genEnding(t *rapid.T, c Case) Ending {
 
 // TestPipe: no limit or a limit far above the traffic — many cases, large payloads.
 func TestPipe(t *testing.T) {
-	vkit.Check(t, 2400, 40000, func(t *rapid.T) {
+	property(t, 2400, 40000, func(t *rapid.T) {
 		check(t, genCase(t, []int64{0, 0, 0, 10 * 1024 * 1024}))
 	})
 }
@@ -852,7 +883,7 @@ func TestPipe(t *testing.T) {
 // TestPipeLimited: limits that actually pace (64 KiB/s) and limits whose burst is below the
 // 32 KiB copy buffer (12 KiB/s, 4 KiB/s). Cases take real time; sizes are budgeted accordingly.
 func TestPipeLimited(t *testing.T) {
-	vkit.Check(t, 400, 6000, func(t *rapid.T) {
+	property(t, 400, 6000, func(t *rapid.T) {
 		check(t, genCase(t, []int64{64 * 1024, 12 * 1024, 4096, 4096}))
 	})
 }
@@ -893,7 +924,7 @@ func TestLimiterBurstFamily(t *testing.T) {
 // runBridgeLifecycle). "The server forgets the tunnel" = GetTunnelBridgeByMappingID finds nothing
 // and the routing table has no waiting record for the tunnel id.
 func TestSession(t *testing.T) {
-	vkit.Check(t, 480, 8000, func(t *rapid.T) {
+	property(t, 480, 8000, func(t *rapid.T) {
 		c := genCase(t, []int64{0, 0, 0, 10 * 1024 * 1024, 64 * 1024, 4096})
 		c.Mini = true
 		c.Stream = true
@@ -904,10 +935,10 @@ func TestSession(t *testing.T) {
 // TestCloseRace (E3): Bridge.Close() from 1..3 goroutines released by a spin flag while both copy
 // loops are moving small payloads; the prefix / closure / counter oracle of runCase applies.
 func TestCloseRace(t *testing.T) {
-	vkit.Check(t, 800, 16000, func(t *rapid.T) {
+	property(t, 800, 16000, func(t *rapid.T) {
 		c := Case{
 			LenAB: rapid.IntRange(0, 70000).Draw(t, "lenAB"), LenBA: rapid.IntRange(0, 70000).Draw(t, "lenBA"),
-			SeedAB: rapid.Uint64().Draw(t, "seedAB"), SeedBA: rapid.Uint64().Draw(t, "seedBA"),
+			SeedAB: uint64(rapid.IntRange(0, 65535).Draw(t, "seedAB")), SeedBA: uint64(rapid.IntRange(0, 65535).Draw(t, "seedBA")),
 			Pace:   rapid.SampledFrom([]int{0, 1}).Draw(t, "pace"),
 			Attach: rapid.SampledFrom([]string{"before-start", "after-start", "after-first-write"}).Draw(t, "attach"),
 			Stream: rapid.Bool().Draw(t, "stream"),
